@@ -209,8 +209,10 @@ Proof.
   rewrite (field_of_none _ _ Hf), Har. rewrite map_length.
   rewrite arity_matches_ok in Hm. rewrite Hm.
   rewrite r_list_consts. cbn [bind].
-  rewrite (run_method_le _ _ (r_app_le _ _ (fun env0 a => eval_mono known fuel (S fuel) env0 a (Nat.le_succ_diag_r fuel))) rv m cs);
-    [exact E1|rewrite E1; discriminate].
+  (* the side condition first: see the remark in OptWf.method_ref *)
+  assert (N1 : run_method (r_app (eval fuel)) rv m cs <> OOF) by (rewrite E1; discriminate).
+  rewrite (run_method_le _ _ (r_app_le _ _ (fun env0 a => eval_mono known fuel (S fuel) env0 a (Nat.le_succ_diag_r fuel))) rv m cs N1).
+  exact E1.
 Qed.
 
 (* constants among optimized children are well-formed *)
